@@ -125,6 +125,55 @@ func ZZC01_breader_seek() {
 	zzReach("still_open")
 }
 
+// Second pass: a read that ended in an error (mismatch, short, over-long) does
+// not change what the reader verifies against. After a rewind - or by simply
+// reading on - a clean end of stream still means the delivered bytes are the
+// ones the descriptor names, and the descriptor the reader reports keeps the
+// digest the caller asked for.
+func ZZC01_breader_second_pass() {
+	alg := zzAlg()
+	d := digest.Digest(zzDigest("d", string(alg)))
+	S := zzInt("size", 0, 2+zzTier())
+	src := &zzSymSeeker{}
+	br := NewReader(WithDesc(descriptor.Descriptor{Digest: d, Size: int64(S)}), WithReader(src))
+	var out []byte
+	K := 2 + zzTier()
+	failed := false
+	for pass := 0; pass < 2; pass++ {
+		for k := 0; k < K; k++ {
+			bl := zzInt("buflen", 0, 2)
+			buf := make([]byte, bl)
+			n, err := br.Read(buf)
+			out = append(out, buf[:n]...)
+			if err == io.EOF {
+				zzReach("clean_eof")
+				if failed {
+					zzReach("clean_eof_after_a_failed_pass")
+				}
+				zzAssert(alg.FromBytes(out) == d, "clean_implies_digest")
+				zzAssert(S == 0 || len(out) == S, "clean_implies_size")
+				zzAssert(br.GetDescriptor().Digest == d, "reported_digest_is_the_requested_one")
+				return
+			}
+			if err != nil {
+				failed = true
+				zzAssert(br.GetDescriptor().Digest == d, "failed_read_keeps_the_requested_digest")
+				break
+			}
+		}
+		if !failed || pass == 1 {
+			return
+		}
+		if zzBool("rewind") {
+			o, err := br.Seek(0, io.SeekStart)
+			if err != nil || o != 0 {
+				return
+			}
+			out = nil
+		}
+	}
+}
+
 // zzBoundedReader: an arbitrary reader for callers that read until EOF
 // themselves (io.ReadAll): at most two bytes per call, and the stream ends
 // (EOF or failure) by the K-th call at the latest.
